@@ -1,5 +1,5 @@
 //! NACK send buffer (`DefaultRtpSenderNackHandler`) and receiver gap detection
-//! (`DefaultRtpReceiverNackHandler`) — driven through their public API, no hooks.
+//! (`DefaultRtpReceiverNackHandler`) — public API plus the hooks `verif_pending_len`, `verif_set_rtx_state`, `verif_maybe_unwrap_rtx`.
 use super::Fails;
 use crate::pk;
 use crate::{Rng, Run};
